@@ -229,10 +229,21 @@ def run(ctx):
                   found=sorted('/'.join(p) for p in rpaths), expected='/'.join(wpath), detail='/'.join(wpath))
         # R19.2 lexical classes
         calls = {cname(x[1]) for x in mir.subterms(rt_full, lambda x: x[0] == 'call')}
+        # what a local reader helper accepts: the accessors it calls and the Yaml variants it takes apart (`Yaml::Integer(v) => v as f64`)
+        variants_taken = set()
+        for hx in mir.subterms(rt_full, lambda x: x[0] == 'call' and x[1] in prog.bodies and prog.bodies[x[1]].kind != 'Closure'):
+            hb = prog.bodies[hx[1]]
+            for hbb in [hb] + util.closure_bodies(prog, hb.path):
+                calls |= {cname(callee_name(ct)) for _, ct in hbb.calls()}
+                for i2, j2, st2 in hbb.stmts():
+                    for pl in (st2['rv'].get('place'), (st2['rv'].get('op') or {}).get('place') if isinstance(st2['rv'].get('op'), dict) else None):
+                        for e in (pl or {}).get('proj', []):
+                            if e.get('k') == 'downcast':
+                                variants_taken.add(e.get('name'))
         if f in ('a1', 'a2', 'b', 'c1', 'c2', 'c3', 'c4'):
             is_display_f64 = isinstance(warg, tuple) and warg[0] == 'call' and cname(warg[1]).endswith('new_display') and prec is None
-            accepts_int = 'Yaml::as_i64' in calls or 'Yaml::into_i64' in calls
-            accepts_real = 'Yaml::as_f64' in calls or 'Yaml::into_f64' in calls
+            accepts_int = 'Yaml::as_i64' in calls or 'Yaml::into_i64' in calls or 'Integer' in variants_taken
+            accepts_real = 'Yaml::as_f64' in calls or 'Yaml::into_f64' in calls or ('Real' in variants_taken and 'str::parse' in calls)
             ctx.check(accepts_real and (accepts_int or not is_display_f64), 'R19.2', f, rd.where(0), rd.path,
                       '`%s` is written with `{}` (an integral value such as 0 prints as `0`, an Integer token) but the reader accepts only %s' % (
                           f, 'Real' if accepts_real else 'nothing numeric'), found=sorted(c for c in calls if c.startswith('Yaml::')), expected='as_f64 or as_i64',
@@ -370,6 +381,7 @@ def _offsets(ctx, prog, wt, rd):
     ctx.check(short_ok, 'R19.2', 'offsets/zero-shortcut', dg.where(0), dg.path,
               'the writer may abbreviate an offset to `0` only when it is exactly 0.0: %s' % short_found, found=str(short_found), detail=str(short_found))
     rconv = {cname(callee_name(t)) for bi, t in pd.calls()} | {cname(callee_name(t)) for c in util.closure_bodies(prog, pd.path) for bi, t in c.calls()}
+    rconv |= {cname(f) for f in pd.fn_refs()}          # `.map(f64::to_radians)`: the conversion passed as a function item
     ok = lits[:1] == ['deg('] and lits[-1:] == [')'] and 'deg(' in strs and ')' in strs and conv == {'f64::to_degrees'} and 'f64::to_radians' in rconv
     ctx.check(ok, 'R19.2', 'offsets/deg-syntax', pd.where(0), pd.path,
               'writer `deg(<degrees>)` and reader (strip `deg(` / `)`, to_radians) must agree', found='writer %s %s; reader strips %s, converts %s' % (lits, sorted(conv), strs, sorted(x for x in rconv if 'radians' in x or 'degrees' in x)),
@@ -436,6 +448,8 @@ def _converts_to_radians(prog, t):
 
     def f(x):
         if x[0] == 'call' and cname(x[1]) == 'f64::to_radians':
+            hit.append(1)
+        if x[0] == 'const' and x[1] == 'fn' and cname(str(x[2])) == 'f64::to_radians':
             hit.append(1)
         if x[0] == 'agg' and str(x[1]).startswith('closure:'):
             cb = prog.bodies.get(x[1][len('closure:'):])
